@@ -22,10 +22,13 @@ BIG = {
     "qr": {"quick": [(33, 33), (40, 35), (34, 47), (130, 130), (140, 129), (129, 150)],
            "thorough": [(31, 31), (32, 32), (33, 33), (40, 35), (34, 47), (63, 65), (65, 64), (96, 96), (128, 128),
                         (129, 129), (130, 130), (140, 129), (129, 150), (161, 161), (200, 160), (160, 200)]},
+    "qp3": {"quick": [(130, 130), (161, 161), (200, 200), (140, 170)],
+            "thorough": [(129, 129), (130, 130), (160, 160), (161, 161), (162, 200), (200, 161), (200, 200), (140, 170),
+                         (193, 193)]},
     "larft": {"quick": [], "thorough": []},
 }
 LEMMA = {"quick": dict(SMALL=5, BIG=[(12, 12), (9, 14)]), "thorough": dict(SMALL=8, BIG=[(20, 20), (33, 30), (14, 25)])}
-FAMS = ("lu", "chol", "qr", "larft")
+FAMS = ("lu", "chol", "qr", "qp3", "larft")
 FORCED = {"quick": [(1, 0), (2, 0), (3, 0), (4, 0), (2, 2), (3, 2)],
           "thorough": [(nb, nx) for nb in (1, 2, 3, 4, 5, 7) for nx in (0, 2)]}
 
@@ -49,7 +52,7 @@ def run(ctx):
     # ---- R1: uniqueness / definition lemmas behind the planted instances --------------------
     lm = LEMMA[ctx.tier]
     for fam in FAMS:
-        big = lm["BIG"] if fam in ("lu", "qr") else [(n, n) for _, n in lm["BIG"]] if fam == "chol" else []
+        big = lm["BIG"] if fam in ("lu", "qr", "qp3") else [(n, n) for _, n in lm["BIG"]] if fam == "chol" else []
         ctx.tlc("lapack/PlantedLemmas.tla", "lapack/PlantedLemmas.cfg", name="R1 PlantedLemmas %s" % fam,
                 subst=dict(FAM=fam, SMALL=lm["SMALL"], BIG=enc(big), NRHS=2, SEED=ctx.seed), workers=4)
 
@@ -63,7 +66,7 @@ def run(ctx):
         # the blocked code runs on every small shape, around its own block edges
         if fam != "larft":
             for nb, nx in FORCED[ctx.tier]:
-                if fam != "qr" and nx != 0:
+                if fam not in ("qr", "qp3") and nx != 0:
                     continue        # only the QR/LQ family has a crossover parameter
                 for bn, _ in (builds[:2] if thorough else builds[:1]):
                     ctx.replay(bins[bn], "lapack", cases, args + ["nb=%d" % nb, "nx=%d" % nx],
